@@ -183,6 +183,7 @@ func (p *Prog) PathsOf(f *Func) []*Path {
 	g := f.CFG()
 	st := &pstate{vars: map[*types.Var]*Term{}, facts: FactSet{}, visits: map[int32]int{}}
 	st.ev = &evaluator{p: p, f: f, st: st, busy: map[*types.Var]bool{}}
+	initNamedResults(f, st)
 	var out []*Path
 	func() {
 		defer func() {
@@ -547,6 +548,15 @@ func isPanicCall(f *Func, x ast.Expr) bool {
 	return ok && b.Name() == "panic"
 }
 
+// initNamedResults: named results hold their zero value until assigned.
+func initNamedResults(f *Func, st *pstate) {
+	for _, r := range f.Res {
+		if r.Name() != "" && r.Name() != "_" {
+			st.vars[r] = atom("zero").withType(r.Type())
+		}
+	}
+}
+
 // straightLine: a block of expression / assignment statements only.
 func straightLine(b *ast.BlockStmt) bool {
 	if b == nil {
@@ -677,7 +687,11 @@ func (p *Prog) bindIndexLoop(f *Func, s ast.Stmt, st *pstate) {
 	if !ok {
 		return
 	}
-	if tv, ok := info.Types[as.Rhs[0]]; !ok || tv.Value == nil || tv.Value.ExactString() != "0" {
+	start := ""
+	if tv, ok := info.Types[as.Rhs[0]]; ok && tv.Value != nil {
+		start = tv.Value.ExactString()
+	}
+	if n, err := strconv.Atoi(start); err != nil || n < 0 || n > 64 {
 		return
 	}
 	var v *types.Var
@@ -703,13 +717,13 @@ func (p *Prog) bindIndexLoop(f *Func, s ast.Stmt, st *pstate) {
 	if cid, ok := ast.Unparen(be.X).(*ast.Ident); !ok || info.Uses[cid] != v {
 		return
 	}
-	call, ok := ast.Unparen(be.Y).(*ast.CallExpr)
-	if !ok || len(call.Args) != 1 {
+	// the bound is len(x), written out or held in a local that was assigned len(x)
+	q0 := &evaluator{p: p, f: f, st: st, busy: map[*types.Var]bool{}, quiet: true}
+	bound := stripConv(q0.eval(be.Y))
+	if bound.Op != "len" || len(bound.A) != 1 {
 		return
 	}
-	if b, ok := typeutil.Callee(info, call).(*types.Builtin); !ok || b.Name() != "len" {
-		return
-	}
+	boundOf := bound.A[0]
 	// the counter must not be assigned in the body
 	assigned := false
 	ast.Inspect(fs.Body, func(n ast.Node) bool {
@@ -736,8 +750,12 @@ func (p *Prog) bindIndexLoop(f *Func, s ast.Stmt, st *pstate) {
 	if assigned {
 		return
 	}
-	q := &evaluator{p: p, f: f, st: st, busy: map[*types.Var]bool{}, quiet: true}
-	st.vars[v] = mk("key", q.eval(call.Args[0])).withType(v.Type())
+	if start == "0" {
+		st.vars[v] = mk("key", boundOf).withType(v.Type())
+	} else {
+		// a counter that starts at c: a position of x that is at least c
+		st.vars[v] = mk("keyfrom", atom("#"+start), boundOf).withType(v.Type())
+	}
 }
 
 // execNode executes one CFG node; returns true if the path ended.
@@ -968,6 +986,12 @@ func (p *Prog) assignTo(f *Func, lhs ast.Expr, val *Term, old *Term, st *pstate,
 	case *ast.StarExpr:
 		t := st.ev.eval(l.X)
 		st.emit(&Event{Kind: EvWrite, Node: node, Pos: l.Pos(), Field: "*", Val: val, Base: t})
+		// a pointer variable known to point at a value: the pointee is replaced
+		if id, ok := ast.Unparen(l.X).(*ast.Ident); ok && t.Op == "&" && len(t.A) == 1 {
+			if v, ok := info.Uses[id].(*types.Var); ok {
+				st.vars[v] = mk("&", val).withType(v.Type())
+			}
+		}
 	}
 }
 
@@ -1028,6 +1052,14 @@ func (p *Prog) finish(f *Func, st *pstate, rs []*Term, pos token.Pos, out *[]*Pa
 					pa.Out = map[int]*Term{}
 				}
 				pa.Out[i] = t
+			}
+		} else if ok {
+			// a pointer to a scalar / slice bound to the address of a caller's value (specialised walk): its final pointee
+			if t, bound := st.vars[pr]; bound && t.Op == "&" && len(t.A) == 1 {
+				if pa.Out == nil {
+					pa.Out = map[int]*Term{}
+				}
+				pa.Out[i] = t.A[0]
 			}
 		}
 	}
@@ -1346,6 +1378,9 @@ func decideFact(f Fact, facts FactSet) int {
 	}
 	t := f.T
 	// values that are never nil / never empty by construction
+	if t.Op == "==" && len(t.A) == 2 && t.A[1].IsAt("#nil") && stripConv(t.A[0]).IsAt("zero") {
+		return res(true) // the zero value of an interface, pointer, slice, map or function type is nil
+	}
 	if t.Op == "==" && len(t.A) == 2 && t.A[1].IsAt("#nil") {
 		switch stripConv(t.A[0]).Op {
 		case "make", "lit", "&", "append", "func":
